@@ -1,6 +1,7 @@
 import TantivyModel.Driver.Proto
 import TantivyModel.Model.Writer
 import TantivyModel.Model.WriterMergeMeta
+import TantivyModel.Model.WriterHistory
 /-!
 Line protocol of the C02 model.  Documents are the harness's unique ids; a delete query travels
 as its extension over the ids of the history (`-` = matches nothing).
@@ -248,9 +249,12 @@ def handle : List String → String
     match toks.mapM parseTok with
     | none => "bad-op"
     | some ops =>
+      -- the verdict is `okHistB` (proved equivalent to the hypothesis `okHist` of
+      -- C02_commit_refines_replay_history); the index lists only say where
+      let verdict := okHistB HFlags.init (ops.map (·.1))
       match hypViolations (ops.map (·.1)) with
-      | ([], []) => "clean"
-      | (l, f) => "dirty:" ++ showNatList l ++ ";firstdel:" ++ showNatList f
+      | ([], []) => if verdict then "clean" else "verdict-mismatch"
+      | (l, f) => if verdict then "verdict-mismatch" else "dirty:" ++ showNatList l ++ ";firstdel:" ++ showNatList f
   | "impl" :: nw :: seed :: toks =>
     match nw.toNat?, seed.toNat?, toks.mapM parseTok with
     | some nw, some seed, some ops =>
